@@ -274,7 +274,7 @@ CHECKS = {
         "(thorough) plus random ones up to 14. Checked: map size <= limit + listeners - 1 at every mutation, no accept at "
         "the limit, backlog connections admitted within 2.5 s of room, idle connections closed by last activity + "
         "channel_timeout + cleanup_interval + 2 s, no server-initiated close while a request is queued or executing.",
-        "Liveness as bounded progress on the virtual clock; one open known finding (F-12) is keyed by mechanism.",
+        "Liveness as bounded progress on the virtual clock; findings are keyed by mechanism (F-12, long open, is fixed).",
         "DESIGN.md 4 C18",
     ),
     "C19": (
